@@ -20,6 +20,8 @@ FORMS = {
     "abs_sqrt": lambda a, b: sqrt(Abs(a)) * b,
     "abs_pow": lambda a, b: Abs(a) ** 3 * b,
     "nested_abs": lambda a, b: Abs(a - b) * Abs(a + b),
+    "abs_form_with_pole": lambda a, b: sqrt(a**2) * a - 1 / a**3 + b / a**2 + sqrt((a - b) ** 2),
+    "abs_with_pole": lambda a, b: Abs(a) * b + b / a**2,
     "piecewise": lambda a, b: Piecewise((a * b, a > 0), (a - b, True)),
     "max": lambda a, b: Max(a, b) * a,
     "min": lambda a, b: Min(a, 2 * b),
@@ -43,7 +45,7 @@ FORMS = {
     "tan": lambda a, b: tan(a / 4) * b + atan(a * b),
     "exp_neg_sq": lambda a, b: exp(-(a**2)) * b,
 }
-QUICK = ("abs", "abs_sqrt", "piecewise", "max", "atan2", "sec", "neg_int_pow")
+QUICK = ("abs", "abs_sqrt", "abs_form_with_pole", "piecewise", "max", "atan2", "sec", "neg_int_pow")
 
 
 def scenario(name, assume, seed=3):
@@ -136,4 +138,8 @@ def run_form(name, assume, cxx=False, seed=3):
             summary[f"c++ cse={cse}"] = "ok" if not pr else ("refused" if loud else "differs")
             if pr and not loud:
                 problems.append(f"form {name} ({'real/positive' if assume else 'plain'} symbols), C++ vs python, CSE {'on' if cse else 'off'}: {pr[0]}")
+            if loud:
+                summary[f"c++ cse={cse} reason"] = pr[0][:160]
+        if (summary["c++ cse=True"] == "refused") != (summary["c++ cse=False"] == "refused"):
+            problems.append(f"form {name} ({'real/positive' if assume else 'plain'} symbols): the C++ generator accepts it with one CSE setting only ({summary})")
     return problems, summary, sc
